@@ -867,7 +867,7 @@ func init() {
 	harness.Register(&harness.Check{
 		ID:          "C08",
 		Level:       "exploration",
-		Rule:        "part orderlaws: tie-rich element sets of 3..6 distinct elements (values in {0,+-1,+-2,+-5}, equal names at different addresses/files/binaries) - EVERY permutation (6..720) is sorted by SortTags (flat, cum) and Nodes.Sort (7 orders incl. entropy with random edges); EdgeMap.Sort is repeated 60x (its input order is a map); the result sequence must be unique (sort.Sort is an insertion sort at these sizes, so any pair the comparator leaves unordered yields two results). part e2e: tie-class profiles (values -2..2, +/- cancelling diff shapes, equal names in several files, duplicate label values, comments and header fields, twin locations at one address with different line information) x 32 format/option combinations (top, tree, peek, dot, dot+call_tree, callgrind(+call_tree), tags, traces, raw, proto (gunzipped), topproto, tagroot/tagleaf; with and without nodecount; list (source files absent: routine headers and per-file errors), disasm through a fake object tool whose instructions carry no line information; proto/raw under show_from, focus+hide, prune_from, tagfocus+taghide; proto/raw/top with -symbolize=local through the real symbolizer over a fake object tool that names every address) rendered 8x in one process (fresh map seeds each time) plus web /top /flamegraph /peek /source on two servers; all byte strings (report bytes plus the messages printed for the user, e.g. unit warnings) equal. part xproc: the same renderings, and the data behind the flame graph view (Report.Stacks as JSON, colours included), in 3 fresh processes. part session: one command typed four times into a fresh interactive session with 1-2 other commands (succeeding and failing) in between, and in half of the gaps an option (source_path, trim_path, granularity, nodecount, sort, divide_by, focus, unit, ...) that is set, used by a report and put back to its default; half of the sessions run at a file-bearing granularity over file names that trim_path/source_path rewrite; a third of the sessions have such an excursion before the first repetition, whose answer is then compared with a second fresh session without it; all four answers equal. part bigdot: graphs of 130-260 callers reaching 1-3 destinations through 1-2 hubs, some also through rarely sampled functions that a node cutoff removes (residual edges whose redundancy is decided by a search over the destination's many ancestors), rendered as dot (nodecount 0, 400; call_tree) 10x each; bytes equal. part fetchorder: 2-6 sources differing in main binary and comments fetched through the gated fetcher under 4 forced completion orders x 6 formats; bytes must be equal. non-trivial = every case; distinct = element set / profile shape",
+		Rule:        "part orderlaws: tie-rich element sets of 3..6 distinct elements (values in {0,+-1,+-2,+-5}, equal names at different addresses/files/binaries) - EVERY permutation (6..720) is sorted by SortTags (flat, cum) and Nodes.Sort (7 orders incl. entropy with random edges); EdgeMap.Sort is repeated 60x (its input order is a map); the result sequence must be unique (sort.Sort is an insertion sort at these sizes, so any pair the comparator leaves unordered yields two results). part e2e: tie-class profiles (values -2..2, +/- cancelling diff shapes, equal names in several files, duplicate label values, comments and header fields, twin locations at one address with different line information) x 32 format/option combinations (top, tree, peek, dot, dot+call_tree, callgrind(+call_tree), tags, traces, raw, proto (gunzipped), topproto, tagroot/tagleaf; with and without nodecount; list (source files absent: routine headers and per-file errors), disasm through a fake object tool whose instructions carry no line information; proto/raw under show_from, focus+hide, prune_from, tagfocus+taghide; proto/raw/top with -symbolize=local through the real symbolizer over a fake object tool that names every address) rendered 8x in one process (fresh map seeds each time) plus web /top /flamegraph /peek /source on two servers; all byte strings (report bytes plus the messages printed for the user, e.g. unit warnings) equal. part xproc: the same renderings, and the data behind the flame graph view (Report.Stacks as JSON, colours included), in 3 fresh processes. part session: one command typed four times into a fresh interactive session with 1-2 other commands (succeeding and failing) in between, and in half of the gaps an option (source_path, trim_path, granularity, nodecount, sort, divide_by, focus, unit, ...) that is set, used by a report and put back to its default; half of the sessions run at a file-bearing granularity over file names that trim_path/source_path rewrite; a third of the sessions have such an excursion before the first repetition, whose answer is then compared with a second fresh session without it; all four answers equal. part bigdot: graphs of 130-260 callers reaching 1-3 destinations through 1-2 hubs, some also through rarely sampled functions that a node cutoff removes (residual edges whose redundancy is decided by a search over the destination's many ancestors), rendered as dot (nodecount 0, 400; call_tree) 10x each; bytes equal. part fetchorder: 2-6 sources differing in main binary and comments fetched through the gated fetcher under 4 forced completion orders x 6 formats; bytes must be equal. part samewrite: one profile serialized by 8 goroutines x 25 times at once (Write, WriteUncompressed, Copy + WriteUncompressed); every result equals that of a lone call. part reparse: legacy documents (random text documents, binary cpu profiles of 1-4 samples) parsed thirty times; all results serialize to the same bytes. The e2e part also fetches a remote profile without a time stamp twice and compares the saved copies. non-trivial = every case; distinct = element set / profile shape",
 		Assumptions: []string{"elements of one sort call have distinct identities (names of tags within a node, NodeInfo of nodes in a graph), as in pprof's own data structures", "schedule coverage = map-iteration seeds of repeated runs and fresh processes, plus forced fetch completion orders (more of them in C16)"},
 		Parts: []harness.Part{
 			{Name: "orderlaws", Quick: 3000, Thor: 100000, Run: runOrderLaws},
